@@ -349,33 +349,70 @@ def work_saturate(ctx, rounds):
 # ---- position independence inside a contract
 
 def position_docs():
+    """(trio of blocks, layout): layout "stop" closes every block with STOP, "fall" lets every block fall through
+    into the tag of the next one (the parser closes blocks differently at a terminal instruction and at a tag)."""
+    P, I = B.P, B.I
     ps = [p[1] for p in probes() if p[0] in ("rules", "fold", "mem", "sto", "zero", "pushlib", "tags")]
+    # blocks linking different libraries (identified per block by order of appearance) and different immutables
+    ps += [[I("PUSHLIB", "la"), P(1), I("ADD"), P(0), I("ADD")],
+           [I("PUSHLIB", "lb"), I("PUSHLIB", "lc"), I("SWAP1"), I("SUB"), I("PUSHLIB", "lb"), I("POP")],
+           [I("PUSHIMMUTABLE", "b7"), I("PUSH data", "c3"), I("ADD"), I("PUSH #[$]", "0"), I("POP")]]
     out = []
     for i in range(len(ps)):
         trio = [ps[i], ps[(i + 1) % len(ps)], ps[(i + 2) % len(ps)]]
-        out.append(trio)
+        out.append((trio, "stop"))
+        out.append((trio, "fall"))
     return out
 
 
-def work_pos(state, trio):
+_ROW_DROP = ("", "block_id", "solver_time_in_sec")
+
+
+def _block_view(r, cname, k, items):
+    """Everything the run reports about the k-th run-code block of contract cname, block names removed."""
+    pre = "%s_run_code_of_0_block_%d_" % (cname.split(":")[-1], k)
+    rows = [{c: v for c, v in row.items() if c not in _ROW_DROP} for row in r["seqs"]
+            if str(row.get("block_id", "")).startswith(pre)]
+    log = [v for key, v in sorted((r["log"] or {}).items()) if key.startswith(pre)] if isinstance(r["log"], dict) else r["log"]
+    text = B.to_text([i for i in docs.block_of_items(items) if i[0] not in ("tag", "JUMPDEST", "STOP")])
+    return [text, rows, log]
+
+
+def work_pos(state, unit):
+    trio, layout = unit
     cfg = state["cfg"]
-    emitted = {}
-    for rot in range(3):
-        order = trio[rot:] + trio[:rot]
-        blocks = [list(b) + [("STOP", None)] for b in order]
-        doc = docs.make_doc({"p.sol:P": docs.make_contract([[("STOP", None)]], blocks)})
-        r = docrun.run_document(cfg, doc, name="pos")
+    seen = {}
+    # rotations 0..2: the three blocks in one contract in rotated order; "alone": each block in a contract of its own
+    for rot in (0, 1, 2, "alone"):
+        if rot == "alone":
+            placed = [("c%d.sol:C%d" % (n, n), [b]) for n, b in enumerate(trio)]
+        else:
+            placed = [("p.sol:P", trio[rot:] + trio[:rot])]
+        contracts = {}
+        for cname, order in placed:
+            if layout == "stop":
+                blocks = [list(b) + [("STOP", None)] for b in order]
+            else:
+                blocks = [list(b) for b in order] + [[("STOP", None)]]
+            contracts[cname] = docs.make_contract([[("STOP", None)]], blocks)
+        r = docrun.run_document(cfg, docs.make_doc(contracts), name="pos", extra_args=("-log",))
         if r["exc"] or r["out"] is None:
             return {"viol": {"clause": "position-run-failed", "detail": str(r["exc"])}}
-        items = r["out"]["contracts"]["p.sol:P"]["asm"][".data"]["0"][".code"]
-        blks = docs.split_items(items)
-        for k, b in enumerate(order):
-            key = B.to_text(b)
-            got = B.to_text([i for i in docs.block_of_items(blks[k]) if i[0] not in ("tag", "JUMPDEST")])
-            if key in emitted and emitted[key][0] != got:
-                return {"viol": {"clause": "position-dependent", "block": key, "first": emitted[key], "now": [got, rot, k]}}
-            emitted.setdefault(key, [got, rot, k])
-    return {"viol": None, "blocks": len(emitted)}
+        for cname, order in placed:
+            items = r["out"]["contracts"][cname]["asm"][".data"]["0"][".code"]
+            blks = docs.split_items(items)
+            for k, b in enumerate(order):
+                key = B.to_text(b)
+                view = _block_view(r, cname, k, blks[k])
+                if key in seen and seen[key][0] != view:
+                    first = seen[key]
+                    what = "emitted-code" if first[0][0] != view[0] else "statistics" if first[0][1] != view[1] else "log"
+                    from .c15 import first_diff
+                    return {"viol": {"clause": "position-dependent;" + what, "block": key, "layout": layout,
+                                     "first": [first[1], first[2]], "now": [rot, k],
+                                     "diff": first_diff(first[0], view)}}
+                seen.setdefault(key, [view, rot, k])
+    return {"viol": None, "blocks": len(seen), "rows": sum(len(v[0][1]) for v in seen.values())}
 
 
 def setup_pos(cfg):
@@ -560,15 +597,18 @@ def main(tier, seed, only=None):
         if value["viol"]:
             v = value["viol"]
             v["config"] = list(cfg)
-            v["trio"] = [B.to_text(b) for b in trio]
+            v["trio"] = [B.to_text(b) for b in trio[0]]
+            v["layout"] = trio[1]
             chk.violation(v["clause"], v)
+        else:
+            tot["pos_rows"] = tot.get("pos_rows", 0) + value.get("rows", 0)
 
     pool.run_tasks([(cfg, [t]) for cfg in cfgs[:2] for t in position_docs()], work_pos, setup=setup_pos,
                    unit_timeout=120, on_result=on_p)
     chk.cov.update({"states": tot["states"], "transitions": tot["transitions"],
                     "traces_validated_against_impl": tot["histories"], "histories": tot["histories"],
                     "module_variables_in_snapshot": tot["nvars"], "globals_observed_to_change": sorted(changed_vars)[:80],
-                    "globals_observed_to_change_count": len(changed_vars), "position_contracts": tot["pos"], "walk_length": len(walk), "walk_word_order": order,
+                    "globals_observed_to_change_count": len(changed_vars), "position_contracts": tot["pos"], "position_statistics_rows_compared": tot.get("pos_rows", 0), "walk_length": len(walk), "walk_word_order": order,
                     "probe_selection": sel, "probes": [[n, B.to_text(b)] for n, b in ps],
                     "distinct_nontrivial": tot["states"], "skipped_budget": tot["budget"], "depth": depth,
                     "explanation": "every history is replayed on the real implementation in a freshly forked process"})
@@ -593,6 +633,22 @@ def replay(path):
         a, b = got.get(w["history_a"], {}).get(i), got.get(w["history_b"], {}).get(i)
         print("replay:", a, b)
         if a != b:
+            print("VIOLATION property=C12 replay=%s" % path)
+            return 1
+        print("no violation on replay")
+        return 0
+    if str(w.get("clause", "")).startswith("position-"):
+        from .c01 import parse_text
+        pres = {}
+
+        def on_pp(c, u, status, value):
+            pres["status"], pres["value"] = status, value
+
+        pool.run_tasks([(cfg, [([parse_text(t) for t in w["trio"]], w["layout"])])], work_pos, setup=setup_pos,
+                       unit_timeout=300, on_result=on_pp)
+        v = pres.get("value") if pres.get("status") == "ok" else None
+        print("replay:", pres.get("status"), str(v and v.get("viol"))[:400])
+        if v and v.get("viol"):
             print("VIOLATION property=C12 replay=%s" % path)
             return 1
         print("no violation on replay")
